@@ -200,3 +200,43 @@ def segments_to_schedule(segments):
     for t, n in segments:
         out += [t] * n
     return out
+
+
+class SchedRLock(SchedLock):
+    """threading.RLock visible to the scheduler"""
+
+    def __init__(self, sched, name="rlock"):
+        SchedLock.__init__(self, sched, name)
+        self.count = 0
+
+    def acquire(self, blocking=True, timeout=-1):
+        me = threading.get_ident()
+        if self.locked_ and self.owner == me:
+            self.count += 1
+            return True
+        if not blocking:
+            if self.locked_:
+                return False
+        else:
+            self.sched.block_until(lambda: self.locked_)
+        self.locked_ = True
+        self.owner = me
+        self.count = 1
+        self.holder = self.sched.me()
+        self.sched.log("acquire", self.name)
+        return True
+
+    def release(self):
+        if not self.locked_ or self.owner != threading.get_ident():
+            raise RuntimeError("cannot release un-acquired lock")
+        self.count -= 1
+        if self.count == 0:
+            self.locked_ = False
+            self.owner = None
+            self.holder = None
+            self.sched.log("release", self.name)
+
+    __enter__ = acquire
+
+    def __exit__(self, *a):
+        self.release()
